@@ -151,7 +151,7 @@ func (c c38Cfg) json() verifkit.M {
 		"DisableCTags": c.DisableCTags, "CTagsPath": c.CTagsPath, "ScipCTagsPath": c.ScipCTagsPath,
 		"CTagsMustSucceed": c.CTagsMustSucceed, "LanguageMap": c.LanguageMap, "ShardMax": c.ShardMax,
 		"Parallelism": c.Parallelism,
-		"Name": c.Name, "ID": int(c.ID), "TenantID": c.TenantID, "Branches": c38Brs(c.Branches), "URL": c.URL,
+		"Name":        c.Name, "ID": int(c.ID), "TenantID": c.TenantID, "Branches": c38Brs(c.Branches), "URL": c.URL,
 		"CommitURLTemplate": c.CommitURLTemplate, "FileURLTemplate": c.FileURLTemplate,
 		"LineFragmentTemplate": c.LineFragmentTemplate, "RawConfig": c38Pairs(c.RawConfig), "Metadata": c38Pairs(c.Metadata),
 	}
@@ -468,7 +468,11 @@ func c38Changes(base c38Cfg) []c38Change {
 	add("CTagsMustSucceed", "toggle", func(c *c38Cfg) { c.CTagsMustSucceed = !c.CTagsMustSucceed })
 	add("LanguageMap", "go:scip", func(c *c38Cfg) { c.LanguageMap = "go:scip" })
 	add("LanguageMap", "go:no", func(c *c38Cfg) { c.LanguageMap = "go:no" })
-	add("ShardMax", "1500", func(c *c38Cfg) { c.ShardMax = 1500 })
+	if base.ShardMax == 1500 {
+		add("ShardMax", "1MiB", func(c *c38Cfg) { c.ShardMax = 1 << 20 })
+	} else {
+		add("ShardMax", "1500", func(c *c38Cfg) { c.ShardMax = 1500 })
+	}
 	add("Parallelism", "4", func(c *c38Cfg) { c.Parallelism = 4 })
 	// repository description
 	add("Branches", "version", func(c *c38Cfg) { c.Branches[0].Version = "v1-next" })
@@ -508,14 +512,16 @@ func c38Bases() map[string]c38Cfg {
 		Metadata: map[string]string{"team": "code"},
 	}
 	a1 := desc.clone()
-	a1.SizeMax, a1.TrigramMax, a1.ShardMax, a1.Parallelism = 2000, 20000, 100<<20, 1
+	a1.SizeMax, a1.TrigramMax, a1.ShardMax, a1.Parallelism = 2000, 20000, 1<<20, 1
 	a1.DisableCTags = true
 	a2 := a1.clone()
 	a2.DisableCTags = false
 	a2.CTagsPath, a2.ScipCTagsPath = "U", "S"
 	a3 := a2.clone()
 	a3.LanguageMap = "go:scip"
-	return map[string]c38Cfg{"A1-noctags": a1, "A2-ctags": a2, "A3-scip": a3}
+	a4 := a1.clone()
+	a4.ShardMax = 1500 // several shards: IndexState reads the first, mergeMeta must patch all
+	return map[string]c38Cfg{"A1-noctags": a1, "A2-ctags": a2, "A3-scip": a3, "A4-multishard": a4}
 }
 
 // ------------------------------------------------------------------ the driver
@@ -564,7 +570,9 @@ func TestVerif_C38_Probe(t *testing.T) {
 		baseNames = append(baseNames, n)
 	}
 	sort.Strings(baseNames)
-	pairSample := verifkit.EnvInt("C38_PAIRS", verifkit.Pick(160, 1<<30)) // non option-option pairs per base
+	// quick: bases A1 and A3 get all single changes, all option-option pairs and a seeded sample
+	// of the other pairs, A2 and A4 the single changes; thorough: every pair on every base
+	pairSample := verifkit.EnvInt("C38_PAIRS", verifkit.Pick(40, 1<<30))
 	var probes []c38Probe
 	baseDir := map[string]string{}
 	for _, bn := range baseNames {
@@ -605,6 +613,9 @@ func TestVerif_C38_Probe(t *testing.T) {
 				c1.Apply(&b)
 				c2.Apply(&b)
 				p := c38Probe{base: bn, fields: []string{c1.Field, c2.Field}, vars: []string{c1.Var, c2.Var}, b: b, fault: "none"}
+				if !verifkit.Thorough() && (bn == "A2-ctags" || bn == "A4-multishard") {
+					continue
+				}
 				if isOpt(c1) && isOpt(c2) {
 					probes = append(probes, p)
 				} else {
